@@ -2,7 +2,7 @@
    Theorem-only file: every proof is `exact <lemma>` or a two-line composition of lemmas; Print Assumptions under each.
    write_oas_model (OasisWrite.v) is compared byte for byte with Library::write_oas, read_oas_model (OasisRead.v) dump for dump
    with read_oas, on every run (units c04w and c04r). *)
-Require Import Base OasisInt OasisSpec OasisSpecProofs OasisRead OasisReadProofs OasisWrite OasisWriteProofs Generated.
+Require Import Base OasisInt OasisSpec OasisSpecProofs OasisRead OasisReadProofs OasisWrite OasisWriteProofs OasisRoundtrip Generated.
 Local Open Scope N_scope.
 
 (* the file gdstk writes (covered subset: polygons, simple FlexPaths, labels, references, every repetition type, properties,
@@ -25,6 +25,22 @@ Proof.
   intros cfg l Hok Hcov. apply oas_reader_accepts_spec_partial_lemma; [apply oas_writer_conforms_lemma; exact Hok|exact Hcov].
 Qed.
 Print Assumptions oas_models_roundtrip.
+
+(* ... and the file the writer model emits always IS in the covered class (minimal encodings, 32-bit tags, PROPERTY records only
+   after START / elements / CELLNAME, distinct cell numbers): the round trip holds with no condition on the stream.
+   wlib_small: tags below 2^32 (always true of gdstk's 32+32-bit Tag), fewer than 2^31 vertices / repetition entries, fewer
+   than 2^26 distinct label texts and property names *)
+Theorem writer_output_covered : forall (cfg : wcfg) (l : wlib), wlib_ok l -> wlib_small l -> covered (write_oas_model cfg l).
+Proof. exact writer_output_covered_lemma. Qed.
+Print Assumptions writer_output_covered.
+
+Theorem oas_models_roundtrip_full : forall (cfg : wcfg) (l : wlib), wlib_ok l -> wlib_small l ->
+  read_oas_model (write_oas_model cfg l) = Ok (OasisRead.view (view_w cfg l)).
+Proof. exact oas_models_roundtrip_full_lemma. Qed.
+Print Assumptions oas_models_roundtrip_full.
+
+Example oas_models_roundtrip_full_nonvacuous : wlib_ok sample_wlib /\ wlib_small sample_wlib.
+Proof. split; [exact sample_wlib_ok|exact sample_wlib_small]. Qed.
 
 (* the offsets stored in S_CELL_OFFSET point at the CELL records *)
 Theorem cell_offsets_point_at_cells : forall cfg l j off, nth_error (cell_offsets cfg l) j = Some off ->
